@@ -310,8 +310,9 @@ theorem unpark_spec (idx : Nat) : ∀ (path : List Nat) (t n : Inv), ParkedTree 
     refine ⟨parkedTree_of_level t c' _ ht hc't hN hNk, ?_⟩
     unfold upUnpark; simp only []; split <;> simp [storeKid]
 
-theorem rekey_parked (g : Inv → Inv) (hg : KeyOnly g) : ∀ (path : List Nat) (t : Inv), ParkedTree t →
-    ParkedTree (rekey g path t) ∧ (rekey g path t).key = t.key ∧ (rekey g path t).hasParked = t.hasParked := by
+theorem rekey_parked (legacy : Bool) (g : Inv → Inv) (hg : KeyOnly g) : ∀ (path : List Nat) (t : Inv), ParkedTree t →
+    ParkedTree (rekey legacy g path t) ∧ (rekey legacy g path t).key = t.key ∧
+      (rekey legacy g path t).hasParked = t.hasParked := by
   intro path
   induction path with
   | nil =>
@@ -323,7 +324,7 @@ theorem rekey_parked (g : Inv → Inv) (hg : KeyOnly g) : ∀ (path : List Nat) 
     intro t ht
     cases hck : t.child k with
     | none =>
-      have : rekey g (k :: p) t = t := by simp only [rekey, updatePath, hck]
+      have : rekey legacy g (k :: p) t = t := by simp only [rekey, updatePath, hck]
       rw [this]; exact ⟨ht, rfl, rfl⟩
     | some c =>
       obtain ⟨hcmem, _⟩ := mem_of_child t k c hck
@@ -331,14 +332,11 @@ theorem rekey_parked (g : Inv → Inv) (hg : KeyOnly g) : ∀ (path : List Nat) 
       obtain ⟨hc't, hc'k, hc'q⟩ := ih c (hq.2 c hcmem)
       unfold rekey at hc't hc'k hc'q ⊢
       rw [updatePath_cons _ _ k p t c hck]
-      generalize updatePath g (upRekey g) p c = c' at hc't hc'k hc'q
+      generalize updatePath g (upRekey legacy g) p c = c' at hc't hc'k hc'q
       have hmq := mem_parkedKids_iff t c hq.1 hcmem
-      generalize hres : upRekey g t c' = res
-      have hrk : res.kids = replaceKid t.kids c' := by rw [← hres]; unfold upRekey; simp [hg.kids, storeKid]
-      have hrq : res.parkedKids =
-          (maybeFix (iLess (replaceKid t.kids c')) t.parkedKids.toArray (refIndex t.parkedKids c.key)).toList := by
-        rw [← hres]; unfold upRekey; simp [hg.parkedKids, storeKid, hc'k]
-      have hrp : res.parked = t.parked := by rw [← hres]; unfold upRekey; simp [hg.parked, storeKid]
+      obtain ⟨hrk, _, _, hrkey, hrp, hrq⟩ := upRekey_fields legacy g hg t c'
+      rw [hc'k] at hrq
+      generalize upRekey legacy g t c' = res at hrk hrkey hrp hrq
       have hN : POk res := by
         cases hidx : refIndex t.parkedKids c.key with
         | none =>
@@ -348,7 +346,7 @@ theorem rekey_parked (g : Inv → Inv) (hg : KeyOnly g) : ∀ (path : List Nat) 
           rw [hidx] at hrq
           have : c'.hasParked = true := by rw [hc'q]; exact hmq.mp (mem_of_refIndex _ _ _ hidx)
           exact pOk_fix _ t c c' res hq.1 hcmem hc'k hrk idx hidx this (by simpa [maybeFix] using hrq)
-      refine ⟨parkedTree_of_level t c' res ht hc't hN hrk, by rw [← hres]; unfold upRekey; simp [hg.key, storeKid], ?_⟩
+      refine ⟨parkedTree_of_level t c' res ht hc't hN hrk, hrkey, ?_⟩
       unfold Inv.hasParked
       rw [hrp]
       congr 2
